@@ -3,7 +3,7 @@ import random
 import hidrun, diffrun
 from diffrun import Cfg
 
-PROPS_VO = ['Props/C09.vo']
+PROPS_VO = ['Props/C09.vo', 'Props/C01_lowerbool.vo']
 GEN_ITEMS = ['coq/Gen/GenTables.v']
 LEVEL = 'proof'
 TRUSTED = ['theorems cover the regenerated tables (arith_map, compare_map, halt_inversion) against the machine semantics for ALL operand values and word sizes, and the index-check arithmetic; '
@@ -40,6 +40,8 @@ def grid(w, rng, extra):
 
 
 def run(ctx):
+    from component import run_corr
+    run_corr(ctx, 'corr_lowerbool', 'value and branch lowering of boolean expressions: hidc instruction text vs LowerBool model (both proved equal to the source semantics)')
     rng = random.Random(ctx.seed)
     q = ctx.tier == 'quick'
     ws = [2, 3, 4] if q else [2, 3, 4, 8]
@@ -141,9 +143,9 @@ def run(ctx):
                 ctx.violate('operator/cast result differs from the specification', cls='operator', source=src, w=res.cfg.w, first_difference=first,
                             args=list(res.cfg.args)[:130], got=[end, flags, out[:200].decode('latin1')], detail=res.run.detail)
     ctx.cov['evaluations'] += total
-    ctx.cov['distinct_nontrivial'] = len(distinct)
-    ctx.cov['rule'] = ('every binary operator x every pair of the boundary grid (0, +-1, +-2, 127/128, 255/256, -128/-129, min/max signed and neighbours, +-10, 7, random) x three positions '
+    ctx.cov['distinct_nontrivial'] = ctx.cov.get('distinct_nontrivial', 0) + len(distinct)
+    ctx.cov['rule'] = ctx.cov.get('rule', '') + ' | ' + ('every binary operator x every pair of the boundary grid (0, +-1, +-2, 127/128, 255/256, -128/-129, min/max signed and neighbours, +-10, 7, random) x three positions '
                        '(value, if-condition, !truth_is_defeat) at word sizes %s, operands read from argv so nothing is folded; unary operators and every cast on the same grid; '
                        'expected results computed by the harness; one evaluation = one program run covering up to 64 operand pairs' % ws)
-    ctx.cov['samples'] = [{'source': units[3][0], 'args_head': list(units[3][1][0].args)[:8]}]
+    ctx.cov['samples'] = (ctx.cov.get('samples') or []) + [{'source': units[3][0], 'args_head': list(units[3][1][0].args)[:8]}]
     ctx.cov['exhaustive'] = True
